@@ -579,6 +579,31 @@ def stream_callers(ctx: Ctx, n: int) -> Stream:
 	return st
 
 
+def stream_dictlike(ctx: Ctx, n: int) -> Stream:
+	rng = ctx.sub_rng('block-dictlike')
+	cases = []
+	for i in range(n):
+		b = rng.choice(BRACKETS)
+		delims = rng.choice([':', ',', ':,'])
+		mode = 'clean' if i % 3 else 'dirty'
+		body, pieces = gen_dictlike(rng, b, delims, 1 + i % 3, mode)
+		text = ''.join(rng.choice(IDENT[:7]) for _ in range(rng.randint(0, 3))) + body
+		if i % 5 == 4:  # a loose variant: blanks around delimiters, text behind nested groups
+			text = text.replace(delims[0], f' {delims[0]} ').replace(b[1], b[1] + rng.choice(['', 'x', ' ']))
+		ops: list[list[str]] = [['pair', text, b, delims], ['parse', text, b, delims], ['parse', text, b, ''], ['bracket', text, b]]
+		for _ in range(4):
+			ops.append(['analyze', text, b, rng.choice([delims, '']), str(rng.randint(0, max(0, len(text) - 1)))])
+		other = rng.choice([x for x in BRACKETS if x != b])
+		ops += [['pair', text, other, delims], ['bracket', text, other]]
+		lines = [op_line(op) for op in ops]
+		real = [real_op(op) for op in ops]
+		cases.append(({'kind': mode, 'pairs': len(pair_spec(pieces)), 'loose': i % 5 == 4}, lines, real))
+	st = common.correspond('block-dictlike', cases, 'block', classify=lambda d: f"{d['kind']} pairs={min(d['pairs'], 5)}{' loose' if d['loose'] else ''}")
+	st.note = ('dict-like fragments `{k: v, …}` / `name(a, b)` with foreign groups directly behind each other (`f(1)[2, 3]`, `t[A](x, y)`), nested dicts, '
+		'strings; parse_pair / parse (with and without delimiter) / parse_bracket / _analyze_entry at random positions, also with another bracket kind')
+	return st
+
+
 def search_callers(ctx: Ctx) -> SearchResult:
 	rng = ctx.sub_rng('law-callers')
 	res = SearchResult('production callers on generated call texts: range(a, b[, c]) / throw E(a, …) / {k, v} / f(args) / recv[key] give back exactly the generated parts (real Py2Cpp handler methods and PatternParser helpers)')
@@ -815,6 +840,44 @@ def search_decorator(ctx: Ctx) -> SearchResult:
 	return res
 
 
+def search_query(ctx: Ctx) -> SearchResult:
+	from rogw.tranp.view.helper.decorator import DecoratorHelper, DecoratorQuery
+	rng = ctx.sub_rng('law-query')
+	res = SearchResult('DecoratorHelper.any / any_args and DecoratorQuery.any / any_args / contains against the generated paths and argument texts')
+	hist: dict[str, int] = {}
+	seen: set[str] = set()
+	for i in range(ctx.scale(4000, 40000)):
+		mode = 'clean' if i % 3 else 'dirty'
+		gen = [deco_text(rng, mode, i + j) for j in range(rng.randint(1, 5))]
+		if rng.random() < 0.3:
+			gen.append((rng.choice(['a.b', 'Embed.prop', 'x']),) * 2 + ([],))
+		rng.shuffle(gen)
+		decos = [g[0] for g in gen]
+		paths = [g[1] for g in gen]
+		joins = [d[len(pth) + 1:-1] if d != pth else '' for d, pth in zip(decos, paths)]
+		probes = rng.sample(paths, rng.randint(1, min(2, len(paths)))) if rng.random() < 0.8 else ['zz']
+		subject = rng.choice([',', '=', '(', 'a', 'k=', ' ', 'zz', '"'])
+		seen.add('|'.join(decos))
+		res.cases += 1
+		k = f'{len(decos)} decorators'
+		hist[k] = hist.get(k, 0) + 1
+		try:
+			q = DecoratorQuery.parse(decos)
+			got: Any = ([h.decorator for h in guarded(q.any, *probes)], guarded(q.contains, *probes), [h.decorator for h in guarded(q.any_args, subject)],
+				[guarded(DecoratorHelper(d).any, *probes) for d in decos], len(q), [h.decorator for h in q])
+		except Exception as e:  # noqa: BLE001
+			got = exc_enum(e)
+		want = ([d for d, pth in zip(decos, paths) if pth in probes], any(pth in probes for pth in paths), [d for d, j in zip(decos, joins) if subject in j],
+			[pth in probes for pth in paths], len(decos), decos)
+		if got != want:
+			res.findings.append(Finding(key='query:any-contains', what=f'DecoratorQuery({decos!r}): any/contains/any_args({probes!r}, {subject!r}) = {got!r}, expected {want!r}', replay={'decorators': decos, 'paths': probes, 'subject': subject}))
+		elif len(res.samples) < 2:
+			res.samples.append({'decorators': decos, 'paths': probes, 'any': want[0]})
+	res.distinct = len(seen)
+	res.histogram = hist
+	return res
+
+
 def check_param(text: str, var_type: str, symbol: str, default: str | None) -> tuple[str, str] | None:
 	from rogw.tranp.implements.cpp.view.cpp_view_helper import CppViewHelper
 	try:
@@ -857,67 +920,150 @@ def search_param(ctx: Ctx) -> SearchResult:
 	return res
 
 
-def nested_group_followed_by_bracket(text: str, b: str) -> bool:
-	"""Is some nested group of kind `b` (one that lies inside another group of that kind) directly followed by a bracket of
-	that kind or by a quote? `_parse` continues at `end + 1` after a block (block.py:147) and so never looks at that character.
-	(clean fragments only: no bracket occurs inside a string)"""
-	depth = 0
-	for i, c in enumerate(text):
-		if c == b[0]:
-			depth += 1
-		elif c == b[1]:
-			depth -= 1
-			if depth >= 1 and i + 1 < len(text) and text[i + 1] in b + ''.join(QUOTES):
-				return True
-	return False
+def kgroups(items: list[Item], b: str) -> list[Item]:
+	"""the top-level groups of kind `b` (not those inside groups of another kind)"""
+	return [it for it in items if it[0] == 'g' and it[1] == b]
 
 
-def check_bracket(text: str, b: str, group: str) -> tuple[str, str] | None:
+def bracket_spec(inner: list[Item], b: str) -> list[str]:
+	"""What parse_bracket has to return for `name + b[0] + inner + b[1] + tail` (independent of the implementation: computed on the
+	generated structure): the group, then each top-level group of the kind followed by its own top-level groups of the kind."""
+	out = [b[0] + render(inner) + b[1]]
+	for g1 in kgroups(inner, b):
+		out.append(render([g1]))
+		out.extend(render([g2]) for g2 in kgroups(g1[2], b))
+	return out
+
+
+def check_bracket(text: str, b: str, want: list[str]) -> tuple[str, str] | None:
 	B = _bp()
 	try:
 		got: Any = guarded(B.parse_bracket, text, b)
 	except Exception as e:  # noqa: BLE001
 		got = exc_enum(e)
-	ok = isinstance(got, list) and len(got) > 0 and got[0] == group and all(p[:1] == b[0] and p[-1:] == b[1] and balanced(p) for p in got)
-	if ok:
+	if got == want:
 		return None
-	if nested_group_followed_by_bracket(text, b):
-		key = 'parse_bracket:character-after-nested-group-is-skipped'
-	elif isinstance(got, list) and got[:1] == [group] and any(p.count(b[0]) == p.count(b[1]) and not balanced(p) for p in got):
-		# `text.find(brackets[0], entry.begin)` (block.py:265) finds a bracket inside a group of another kind that belongs to the
-		# entry's name part (`g[(1)](x)`): the block text then starts inside that other group
-		key = 'parse_bracket:block-begin-found-inside-other-kind-group'
+	if isinstance(got, list) and got[:1] != want[:1]:
+		key = 'parse_bracket:first-block-is-not-the-group'
+	elif isinstance(got, list) and not all(p[:1] == b[0] and p[-1:] == b[1] and balanced(p) for p in got):
+		key = 'parse_bracket:unbalanced-block'
 	else:
 		key = 'parse_bracket:blocks-differ'
-	return key, f'parse_bracket({text!r}, {b!r}) = {got!r}; the group is {group!r}'
+	return key, f'parse_bracket({text!r}, {b!r}) = {got!r}; the groups (two levels, pre-order) are {want!r}'
 
 
 def search_bracket(ctx: Ctx) -> SearchResult:
 	rng = ctx.sub_rng('law-bracket')
-	res = SearchResult('parse_bracket on name + group + tail: the first block is the whole group and every block is a balanced group of the kind (clean fragments)')
+	res = SearchResult('parse_bracket on name + group + tail = the group, its top-level groups of the kind and theirs, in pre-order (structure-side oracle; clean and dirty strings)')
 	hist: dict[str, int] = {}
 	seen: set[str] = set()
-	for text, b, group in [('f(g(x))+1', '()', '(g(x))'), ('a(b(c(d)))', '()', '(b(c(d)))'), ('f(g[(1)](x), y)', '()', '(g[(1)](x), y)')]:
+	for text, b, want in [('f(g(x))+1', '()', ['(g(x))', '(x)']), ('a(b(c(d)))', '()', ['(b(c(d)))', '(c(d))', '(d)']),
+			('f(g[(1)](x), y)', '()', ['(g[(1)](x), y)', '(x)']), ('f(g(x)(y))', '()', ['(g(x)(y))', '(x)', '(y)']), ('a(b(c(d(e))))', '()', ['(b(c(d(e))))', '(c(d(e)))', '(d(e))'])]:
 		res.cases += 1
-		bad = check_bracket(text, b, group)
+		bad = check_bracket(text, b, want)
 		if bad:
 			res.findings.append(Finding(key=bad[0], what=bad[1], replay={'text': text, 'brackets': b, 'witness': True}))
-	for i in range(ctx.scale(25000, 200000)):
+	for i in range(ctx.scale(12000, 120000)):
 		b = rng.choice(BRACKETS)
-		inner = render(gen_fragment(rng, 'clean', i))
+		mode = 'clean' if i % 3 else 'dirty'
+		inner = gen_fragment(rng, mode, i)
 		name = ''.join(rng.choice(IDENT[:7]) for _ in range(rng.randint(0, 3)))
 		tail = rng.choice(['', '', ';', ' + 1', '.x', ' '])
-		group = b[0] + inner + b[1]
-		text = name + group + tail
+		text = name + b[0] + render(inner) + b[1] + tail
+		want = bracket_spec(inner, b)
 		res.cases += 1
 		seen.add(b + text)
-		bad = check_bracket(text, b, group)
-		k = f'{b} ' + ('nested group directly before a bracket of the kind or a quote' if nested_group_followed_by_bracket(text, b) else 'other')
+		bad = check_bracket(text, b, want)
+		k = f'{mode} blocks={min(len(want), 6)}'
 		hist[k] = hist.get(k, 0) + 1
 		if bad:
 			res.findings.append(Finding(key=bad[0], what=bad[1], replay={'text': text, 'brackets': b}))
-		elif len(res.samples) < 2 and inner.count(b[0]) > 0:
-			res.samples.append({'text': text, 'blocks': real_op(['bracket', text, b])})
+		elif len(res.samples) < 2 and len(want) > 2:
+			res.samples.append({'text': text, 'blocks': want})
+	res.distinct = len(seen)
+	res.histogram = hist
+	return res
+
+
+def gen_tight(rng: random.Random, b: str, mode: str) -> str:
+	"""a piece without a top-level blank, delimiter or bracket of kind `b`: identifier characters, strings and groups of the
+	OTHER kinds (with anything balanced inside) — often two foreign groups directly behind each other (`f(1)[2, 3]`, `t[A](x, y)`)"""
+	others = [x for x in BRACKETS if x != b]
+	out = ''
+	for _ in range(rng.randint(1, 3)):
+		r = rng.random()
+		if r < 0.45:
+			out += ''.join(rng.choice(IDENT) for _ in range(rng.randint(1, 3)))
+		elif r < 0.6:
+			out += render([gen_string(rng, mode, b)])
+		else:
+			for _ in range(1 if rng.random() < 0.5 else 2):
+				o = rng.choice(others)
+				out += o[0] + render(gen_items(rng, rng.randint(0, 2), mode, 3, 0.4, b, o)).replace(b[0], '').replace(b[1], '') + o[1]
+	return out
+
+
+def gen_dictlike(rng: random.Random, b: str, delims: str, depth: int, mode: str) -> tuple[str, list[tuple[str, Any]]]:
+	"""→ (text of `b[0] … b[1]`, pieces); a piece is (text, None) or (text, sub-pieces) for `name + nested dict`; an even number of pieces"""
+	pieces: list[tuple[str, Any]] = []
+	parts = []
+	for j in range(2 * rng.randint(0, 3)):
+		if depth > 0 and rng.random() < 0.3:
+			name = gen_tight(rng, b, mode) if rng.random() < 0.5 else ''
+			sub_text, sub = gen_dictlike(rng, b, delims, depth - 1, mode)
+			pieces.append((name + sub_text, sub))
+		else:
+			pieces.append((gen_tight(rng, b, mode), None))
+		parts.append((' ' if j and rng.random() < 0.7 else '') + pieces[-1][0])
+	text = b[0]
+	for j, part in enumerate(parts):
+		text += part + (rng.choice(delims) if j + 1 < len(parts) else '')
+	return text + b[1], pieces
+
+
+def pair_spec(pieces: list[tuple[str, Any]]) -> list[tuple[str, str]]:
+	"""parse_pair: consecutive pairs of the root's pieces, then of the pieces of its nested dicts (`unders` is two levels deep)"""
+	level1 = [t for t, _ in pieces]
+	level2 = [t for _, sub in pieces if sub is not None for t, _ in sub]
+	return [(level1[i], level1[i + 1]) for i in range(0, len(level1) - 1, 2)] + [(level2[i], level2[i + 1]) for i in range(0, len(level2) - 1, 2)]
+
+
+def search_pair(ctx: Ctx) -> SearchResult:
+	B = _bp()
+	rng = ctx.sub_rng('law-pair')
+	res = SearchResult('parse_pair on dict-like fragments `{k: v, …}` / `name(a, b)` with blank-free pieces (identifiers, strings, foreign groups also directly adjacent, nested dicts): the (key, value) texts per depth (structure-side oracle)')
+	hist: dict[str, int] = {}
+	seen: set[str] = set()
+	fixed = [('{a: f(1)[2, 3]}', '{}', ':', [('a', 'f(1)[2, 3]')]), ('tag(a, t[A](x, y))', '()', ',', [('a', 't[A](x, y)'), ('x', 'y')]),
+		('{a: {b: c}}', '{}', ':', [('a', '{b: c}'), ('b', 'c')]), ('{{a, b}, {c, d(e, f)}}', '{}', ',', [('{a, b}', '{c, d(e, f)}'), ('a', 'b'), ('c', 'd(e, f)')])]
+	for text, b, d, want in fixed:
+		res.cases += 1
+		try:
+			got: Any = guarded(B.parse_pair, text, b, d)
+		except Exception as e:  # noqa: BLE001
+			got = exc_enum(e)
+		if got != want:
+			res.findings.append(Finding(key='parse_pair:pairs-differ', what=f'parse_pair({text!r}, {b!r}, {d!r}) = {got!r}, expected {want!r}', replay={'text': text, 'brackets': b, 'delimiter': d, 'witness': True}))
+	for i in range(ctx.scale(8000, 80000)):
+		b = rng.choice(BRACKETS)
+		delims = rng.choice([':', ',', ':,'])
+		mode = 'clean' if i % 3 else 'dirty'
+		body, pieces = gen_dictlike(rng, b, delims, 1 + i % 2, mode)
+		name = ''.join(rng.choice(IDENT[:7]) for _ in range(rng.randint(0, 3)))
+		text = name + body
+		want = pair_spec(pieces)
+		res.cases += 1
+		seen.add(b + delims + text)
+		try:
+			got = guarded(B.parse_pair, text, b, delims)
+		except Exception as e:  # noqa: BLE001
+			got = exc_enum(e)
+		k = f'{mode} pairs={min(len(want), 5)}'
+		hist[k] = hist.get(k, 0) + 1
+		if got != want:
+			res.findings.append(Finding(key='parse_pair:pairs-differ', what=f'parse_pair({text!r}, {b!r}, {delims!r}) = {got!r}, expected {want!r}', replay={'text': text, 'brackets': b, 'delimiter': delims}))
+		elif len(res.samples) < 2 and len(want) > 1:
+			res.samples.append({'text': text, 'pairs': want})
 	res.distinct = len(seen)
 	res.histogram = hist
 	return res
@@ -986,7 +1132,13 @@ STATEMENTS: dict[str, str] = {
 	'decorator_piece_positional / decorator_piece_labelled': 'a piece without top-level "=" is stored verbatim under str(position) whatever "=" are nested in it; a piece label=value is stored as exactly the texts around its first top-level "="',
 	'decorator_positional': 'f(v) for a single positional argument v (no top-level "," or "="): {"0": v.strip()} - the former counterexample f(g(k=1)) is an instance',
 	'param_plain / param_unrestricted': 'Param.parse("t1 ... tn name [= default]") = (t1 ... tn joined by one blank, name, default.strip()) for non-empty tokens without top-level blank or "=" and EVERY default fragment (also with top-level "=": bool b = x == y)',
-	'bracket_first': 'parse_bracket(name + group + tail)[0] is the whole group, for every inner fragment (nested same-kind groups, other kinds, strings)',
+	'bracket_spec / bracket_balanced / bracket_first': 'parse_bracket(name + group + tail) = [the group] + for every top-level group of the kind inside it: that group + its own top-level groups of the kind (pre-order, two levels = Entry.unders), for every inner fragment; hence every block is a whole balanced group and the first is the group itself',
+	'bracket_all_levels_counterexample': 'the blocks are NOT all groups at every depth: a(b(c(d(e)))) lists three levels (unders is two levels deep)',
+	'parse_total / parse_pair_total / parse_bracket_total': 'the loops of _analyze_entry, _parse, _parse_block finish on EVERY text and delimiter set (two-character brackets): no fuel exhaustion; every iteration ends its loop or moves the index forward',
+	'sep_join': 'break_separator(d.join(parts)) = [p.strip() for p in parts] for parts that are fragments without top-level d (last one not empty): the law every production caller relies on',
+	'caller_pluck / caller_range / caller_throw / caller_dict_comp': 'PatternParser.pluck_func_call_arguments, Py2Cpp.proc_for_range (begin, size, step), on_throw (calls, arguments), on_dict_comp (key, value) return exactly the generated argument texts, for arbitrary bracket-balanced arguments (strings may hold any bracket but parentheses for the break_last_block based ones)',
+	'query_any': 'DecoratorQuery.any(*paths) = the decorators whose text before the first "(" is in paths, in order; contains(*paths) = whether there is one',
+	'sep_multichar_rejoin_counterexample': 'for a multi-character delimiter the rejoin law is false when occurrences overlap: break_separator("a:::b", "::") = ["a", "", "b"]',
 }
 
 
@@ -1026,17 +1178,18 @@ def run(ctx: Ctx) -> int:
 			stream_fragments(ctx, 'block-dirty', 'dirty', ctx.scale(4000, 30000)),
 			stream_fragments(ctx, 'block-malformed', 'malformed', ctx.scale(4000, 30000)),
 			stream_callers(ctx, ctx.scale(3000, 30000)),
+			stream_dictlike(ctx, ctx.scale(3000, 30000)),
 		]
 	with ctx.timed('search'):
-		searches = [search_skip(ctx), search_sep(ctx), search_last(ctx), search_decorator(ctx), search_param(ctx), search_bracket(ctx), search_callers(ctx)]
+		searches = [search_skip(ctx), search_sep(ctx), search_last(ctx), search_decorator(ctx), search_param(ctx), search_bracket(ctx), search_pair(ctx), search_callers(ctx), search_query(ctx)]
 	cap_findings(searches)
 	return common.finish(ctx, proof, streams, searches,
 		translate_ok=translate_ok, translate_msg=translate_msg,
 		statements=STATEMENTS,
 		partial={
-			'proved (all fragments, unbounded nesting, induction on Frag)': 'splitting = exact top-level split (hence cuts only at top-level delimiters, rejoin up to blanks, balanced pieces) for fragments with arbitrary simple strings; last bracket group of prefix+group (strings may contain the other bracket kinds and quotes); error branch; skip; decorator path/join_args/pieces and the key/value of positional and labelled pieces; parameter type/name/default for every default fragment; first block of parse_bracket',
-			'formerly false, proved after the repairs 3111a97 d6d867d eb33d21 f350973': 'param_unrestricted, decorator_positional, sep_spec_dirty, bracket_first; the old witnesses are replayed from corpus/C18 and by the searches and must pass',
-			'correspondence + search only': 'every block of parse_bracket (beyond the first) is a balanced group; _analyze_entry, _parse, _parse_block, parse, parse_pair (modelled line by line and compared on every stream; parse_pair has no caller); multi-character and empty delimiters, brackets arguments of other lengths, unbalanced text',
+			'proved (all fragments, unbounded nesting, induction on Frag)': 'splitting = exact top-level split (hence cuts only at top-level delimiters, rejoin up to blanks, balanced pieces) for fragments with arbitrary simple strings; last bracket group of prefix+group (strings may contain the other bracket kinds and quotes); error branch; skip; decorator path/join_args/pieces and the key/value of positional and labelled pieces; parameter type/name/default for every default fragment; parse_bracket = the groups two levels deep in pre-order; the production callers (range / throw / dict-comprehension / pluck / indexer); DecoratorQuery.any / contains; termination of _parse/_parse_block/_analyze_entry on every text',
+			'formerly false, proved after the repairs 3111a97 d6d867d eb33d21 f350973': 'param_unrestricted, decorator_positional, sep_spec_dirty, bracket_first/bracket_spec; the old witnesses are replayed from corpus/C18 and by the searches and must pass',
+			'correspondence + search only': 'the parse_pair law ((key, value) texts per depth on dict-like fragments with blank-free pieces, incl. directly adjacent foreign groups: structure-side oracle + stream block-dictlike; parse_pair has no caller); DecoratorHelper.match / match_args (regular expressions, not modelled); multi-character delimiters without overlap (positive law not proved), empty delimiter, brackets arguments of other lengths, unbalanced text (correspondence)',
 		},
 		assumptions=[
 			'fragments are rendered with the ASCII bracket/quote characters of BlockParser._all_pair (generated table; the proofs are redone when it changes)',
